@@ -174,8 +174,21 @@ func C02(c *fw.Ctx) {
 		}
 	}
 	// equality laws on bound values (identity preserved through variables)
-	for _, x := range ops {
-		for _, y := range ops {
+	// ... over the operand alphabet extended by every built-in and by user functions of several shapes
+	// (with parameters, two instances of one nested declaration, a function held in a container)
+	eqOps := append([]operand{}, ops...)
+	for _, b := range model.Builtins {
+		b := b
+		eqOps = append(eqOps, operand{"builtin:" + b, func() *model.N { return model.Id(b) }})
+	}
+	eqOps = append(eqOps,
+		operand{"fn:uf2", func() *model.N { return model.Id("uf2") }},
+		operand{"fn:C1", func() *model.N { return model.Id("C1") }},
+		operand{"fn:C2", func() *model.N { return model.Id("C2") }},
+		operand{"fn:held", func() *model.N { return model.Idx(model.Id("FH"), model.Num(0)) }})
+	c.Bound("equality_alphabet", len(eqOps))
+	for _, x := range eqOps {
+		for _, y := range eqOps {
 			if !c.Mine() {
 				continue
 			}
@@ -270,6 +283,8 @@ func C02(c *fw.Ctx) {
 // kindLabel abstracts an operand name to its kind for signatures.
 func kindLabel(name string) string {
 	switch {
+	case strings.HasPrefix(name, "builtin:") || strings.HasPrefix(name, "fn:"):
+		return "function"
 	case name == "nil" || name == "true" || name == "false":
 		return name
 	case strings.HasPrefix(name, `"`), strings.Contains(name, "digit"):
@@ -295,6 +310,10 @@ func kindLabel(name string) string {
 // kind scalars compare by value.
 func equalityLaws(c *fw.Ctx, x, y operand) {
 	prog := append(c02Prelude(),
+		model.Fun("uf2", []string{"a", "b"}, model.Return(model.Id("a"))),
+		model.Fun("mk", nil, model.Fun("in", nil), model.Return(model.Id("in"))),
+		model.Var("C1", model.CallN("mk")), model.Var("C2", model.CallN("mk")),
+		model.Var("FH", model.Arr(model.Id("uf2"))),
 		model.Var("X", x.Mk()), model.Var("Y", y.Mk()),
 		model.Print(model.Bin("==", model.Id("X"), model.Id("Y"))),
 		model.Print(model.Bin("==", model.Id("Y"), model.Id("X"))),
